@@ -21,7 +21,7 @@ ASSUMPTIONS = [
     "a library name absent from the golden tables is counted as unverified, not as a violation",
 ]
 REQUIRED = ["number_renders_name", "number_renders_digits", "name_ok", "proto_name_ok",
-            "vocab_ace_ok", "platform_switch_ok", "generated_ok"]
+            "vocab_ace_ok", "platform_switch_ok", "generated_ok", "acl_level_ok"]
 PLATFORMS = ("asa", "ios", "nxos")
 VERSIONS = ("", "15.2(4)M", "16.9.6", "9.3(8)")
 CHUNK = 8192
@@ -39,6 +39,7 @@ def describe(tier, seed):
 def units(tier, seed):
     out = [dict(kind="tables"), dict(kind="protocols"), dict(kind="platform_switch")]
     out += [dict(kind="generated", platform=p, proto=pr) for p in PLATFORMS for pr in ("tcp", "udp")]
+    out += [dict(kind="acl_level", platform=p, version=v) for p in ("ios", "nxos") for v in VERSIONS]
     for plat in PLATFORMS:
         for ver in VERSIONS:
             for proto in ("tcp", "udp"):
@@ -64,6 +65,8 @@ def run_unit(unit, ctx):
         _platform_switch(ctx)
     elif kind == "generated":
         _generated(unit["platform"], unit["proto"], ctx)
+    elif kind == "acl_level":
+        _acl_level(unit["platform"], unit["version"], ctx)
 
 
 def replay(case, ctx):
@@ -79,6 +82,8 @@ def replay(case, ctx):
         _platform_switch(ctx)
     elif kind == "generated":
         _generated(case["platform"], case["proto"], ctx)
+    elif kind == "acl_level":
+        _acl_level(case["platform"], case["version"], ctx)
     else:
         _tables(ctx)
 
@@ -303,6 +308,78 @@ def _protocols(ctx):
                         ctx.viol("Ace:proto_switch_changes_number", case, ace.protocol.number,
                                  golden.PROTO.get(name))
     ctx.sample("protocol", dict(platform="ios", number=6))
+
+
+ACL_OPS = ["none", "block.port_nr on/off", "block.protocol_nr on/off", "block.copy", "acl.copy",
+           "acl.platform=same", "acl.platform=roundtrip", "acl.ungroup_ports", "acl.port_nr on/off",
+           "acl.ungroup+group"]
+
+
+def _acl_level(platform, version, ctx):
+    """The version table is an ACL-wide setting: entries inside blocks (group_by) must render the
+    names of THAT table after every object-level operation on the ACL or on one of its blocks."""
+    from cisco_acl import Acl
+    from cisco_acl.port_name import PortName
+
+    tables = {p: PortName(protocol=p, platform=platform, version=version).names() for p in ("tcp", "udp")}
+    union = {p: set(golden.PORTS[p].values()) for p in ("tcp", "udp")}
+    head = "ip access-list extended A" if platform == "ios" else "ip access-list A"
+    other = "nxos" if platform == "ios" else "ios"
+    for proto in ("tcp", "udp"):
+        numbers = sorted(union[proto])
+        for op in ACL_OPS:
+            ctx.ev()
+            ctx.nt_count()
+            case = dict(kind="acl_level", platform=platform, version=version, proto=proto, op=op)
+            body = ["remark = a"] + [f"permit {proto} any any eq {n}" for n in numbers[::2]] + \
+                   ["remark = b"] + [f"permit {proto} any eq {n} any" for n in numbers[1::2]]
+            try:
+                acl = Acl(head + "\n" + "\n".join(" " + b for b in body), platform=platform,
+                          version=version, group_by="= ")
+                if op.startswith("block."):
+                    for blk in acl.items:
+                        if op == "block.copy":
+                            acl.items[acl.items.index(blk)] = blk.copy()
+                        else:
+                            attr = op.split(".")[1].split()[0]
+                            setattr(blk, attr, True)
+                            setattr(blk, attr, False)
+                elif op == "acl.copy":
+                    acl = acl.copy()
+                elif op == "acl.platform=same":
+                    acl.platform = platform
+                elif op == "acl.platform=roundtrip":
+                    acl.platform = other
+                    acl.platform = platform
+                elif op == "acl.ungroup_ports":
+                    acl.ungroup_ports()
+                elif op == "acl.port_nr on/off":
+                    acl.port_nr = True
+                    acl.port_nr = False
+                elif op == "acl.ungroup+group":
+                    acl.ungroup()
+                    acl.group("= ")
+                text = acl.line
+                again = Acl(text, platform=platform, version=version, group_by="= ")
+            except (ValueError, TypeError) as ex:
+                ctx.viol("Acl:version_table:rejected", case, repr(ex), "ACL and its own text accepted")
+                continue
+            bad = None
+            lines = [ln.split() for ln in text.split("\n")[1:] if " eq " in ln]
+            if len(lines) != len(numbers) or again.line != text:
+                bad = ("entries lost or text not stable on re-parse", len(lines), len(numbers))
+            for toks, n in zip(lines, numbers[::2] + numbers[1::2]):
+                tok = toks[toks.index("eq") + 1]
+                if tok.isdigit():
+                    if int(tok) != n:
+                        bad = (" ".join(toks), n)
+                elif tables[proto].get(tok) != n:
+                    bad = (" ".join(toks), f"a name of {n} in the {platform}/{version or 'default'} table")
+            if bad:
+                ctx.viol("Acl:version_table:name_of_another_table", case, bad[0], bad[-1])
+            else:
+                ctx.out("acl_level_ok")
+    ctx.sample("acl_level", dict(platform=platform, version=version))
 
 
 def _generated(platform, proto, ctx):
